@@ -734,7 +734,8 @@ func c07class(c *core.Ctx, r *core.Reporter) {
 		}
 		for _, s := range nonNilSucc {
 			for b := range core.ReachableBlocks(s, nil) {
-				if _, ok := b.Instrs[len(b.Instrs)-1].(*ssa.Return); ok && s.Dominates(b) {
+				// s is entered only with a non-nil recovered value, so any return reachable from it swallows the condition
+				if _, ok := b.Instrs[len(b.Instrs)-1].(*ssa.Return); ok {
 					swallow = true
 				}
 			}
